@@ -31,11 +31,11 @@ type Graph struct {
 	assignCount map[*types.Var]int
 	assumedFn   func(Fact) bool // set while a query with Assume runs
 	flagIx      map[*types.Var]int
-	enumIx      map[*types.Var]int      // tracked locals that only ever hold one of at most three constants: slot in the valuation
-	enumVals    map[*types.Var][]string // their values (constant.ExactString), state k+1 of the slot = enumVals[v][k]
-	intFlag     map[*types.Var]bool // tracked flags of integer type that only ever hold the constants 0 and 1
+	enumIx      map[*types.Var]int             // tracked locals that only ever hold one of at most three constants: slot in the valuation
+	enumVals    map[*types.Var][]string        // their values (constant.ExactString), state k+1 of the slot = enumVals[v][k]
+	intFlag     map[*types.Var]bool            // tracked flags of integer type that only ever hold the constants 0 and 1
 	iifeAssigns map[*ast.ExprStmt][]*types.Var // variables assigned inside a literal that the statement calls on the spot
-	entryVals   map[*GNode]map[Val]bool // valuations with which each node is reached from the entry (lazily, no assumption)
+	entryVals   map[*GNode]map[Val]bool        // valuations with which each node is reached from the entry (lazily, no assumption)
 	seeding     bool
 	nilIx       map[*types.Var]int // tracked locals of type error: the valuation holds the truth of `v != nil`
 	evalAt      *GNode             // the node whose condition / assignment is being evaluated (for Fact.At)
